@@ -73,7 +73,19 @@ func rValue(sb *strings.Builder, v AV, sorted bool) {
 func rAttrs(sb *strings.Builder, a Attrs, sorted bool) {
 	if sorted {
 		b := append(Attrs(nil), a...)
-		sort.SliceStable(b, func(i, j int) bool { return b[i].K < b[j].K })
+		// by key; entries with the SAME key (possible in a map that came off the wire) in the order
+		// of their rendered values: the order the converter's sort leaves equal keys in is not fixed
+		rv := func(kv KVp) string {
+			var vb strings.Builder
+			rValue(&vb, kv.V, sorted)
+			return vb.String()
+		}
+		sort.SliceStable(b, func(i, j int) bool {
+			if b[i].K != b[j].K {
+				return b[i].K < b[j].K
+			}
+			return rv(b[i]) < rv(b[j])
+		})
 		a = b
 	}
 	sb.WriteString("{")
